@@ -8,10 +8,10 @@ for d in sorted(glob.glob('/verif/seeded/*/meta.json')):
     sigs = det.get('first_signatures') or []
     caught = ', '.join('`%s`' % s for s in sigs[:2]) or det.get('result', '')
     hist = m.get('history', '')
-    missed = hist.upper().startswith('MISSED')
+    missed = hist.upper().startswith(('MISSED', 'MASKED', 'FIRST UNBUILDABLE'))
     note = ''
     if missed:
-        note = ' — **initially missed**: ' + hist.split(';', 1)[-1].strip() if ';' in hist else ' — **initially missed**; ' + hist
+        note = ' — **initially missed**: ' + hist
     change = m.get('change', '').replace('|', '\\|')
     needs = m.get('needs_to_manifest', '').replace('|', '\\|')
     rows.append('| %s | %s (needs: %s) | %s%s |' % (m['id'], change, needs, caught, note.replace('|', '\\|')))
